@@ -49,6 +49,7 @@ type req struct {
 	atMs   int // send time
 	slowMs int
 	id     int32
+	oneway bool // packet type TARSONEWAY: executed, never answered
 }
 
 type conf struct {
@@ -60,14 +61,19 @@ type conf struct {
 	shutdownMs int
 	ctxMs      int
 	abortMs    map[int]int // client -> time at which it aborts its connection (RST)
+	noReadTO   bool        // server ReadTimeout 0 (the framework default) instead of 200 ms
 }
 
 func scenario(c conf) *vm.Scenario {
 	sc := &vm.Scenario{Name: c.name, MaxSteps: 800000}
 	sc.Main = func() {
 		tars.VerifNewApp()
+		rto := 200 * time.Millisecond
+		if c.noReadTO {
+			rto = 0
+		}
 		ts, _ := tars.VerifNewServer(adminf.NewAdminF(), imp{}, true, &transport.TarsServerConf{Proto: "tcp", Address: addr,
-			MaxInvoke: c.pool, QueueCap: c.queueCap, IdleTimeout: 600 * time.Second, AcceptTimeout: 500 * time.Millisecond, ReadTimeout: 200 * time.Millisecond})
+			MaxInvoke: c.pool, QueueCap: c.queueCap, IdleTimeout: 600 * time.Second, AcceptTimeout: 500 * time.Millisecond, ReadTimeout: rto})
 		if err := ts.Listen(); err != nil {
 			panic(err)
 		}
@@ -110,7 +116,11 @@ func client(c conf, k int) {
 			w := &tnet.W{}
 			cmd := fmt.Sprintf("q%d|slow%d", q.id, q.slowMs)
 			w.Str(1, cmd)
-			pkt := (&tnet.Request{Version: 1, ID: q.id, Servant: "App.Srv.AdminObj", Func: "notify", Buffer: w.B,
+			var pt int8
+			if q.oneway {
+				pt = 1
+			}
+			pkt := (&tnet.Request{Version: 1, PacketType: pt, ID: q.id, Servant: "App.Srv.AdminObj", Func: "notify", Buffer: w.B,
 				Timeout: 60000, Context: map[string]string{}, Status: map[string]string{}}).Encode()
 			if _, err := conn.Write(pkt); err != nil {
 				vm.Log("client %d send id=%d failed", k, q.id)
@@ -173,6 +183,7 @@ func check(c conf, r *vm.Result) string {
 	var msgs []string
 	connOf := map[int]string{}
 	got := map[int32]bool{}
+	ran := map[string]bool{}
 	closedAt := map[int]int64{}
 	notice := map[int]bool{}
 	var shutBegin, shutEnd int64 = -1, -1
@@ -183,6 +194,8 @@ func check(c conf, r *vm.Result) string {
 		var t int64
 		var s string
 		switch {
+		case strings.HasPrefix(o, "servant end "):
+			ran[strings.TrimPrefix(o, "servant end ")] = true
 		case scan(o, "client %d conn=%s", &k, &s):
 			connOf[k] = s
 		case scan(o, "client %d rsp id=%d ret=%d t=%d", &k, &id, &ret, &t):
@@ -226,8 +239,16 @@ func check(c conf, r *vm.Result) string {
 			continue
 		}
 		if read[sconn] >= sent[q.client] {
-			// fully read by the server: must be answered before the connection is closed
-			if !got[q.id] {
+			// fully read by the server: must be answered before the connection is closed (a one-way
+			// request: must have been executed, and must not be answered)
+			if q.oneway {
+				if !ran[fmt.Sprintf("q%d|slow%d", q.id, q.slowMs)] {
+					msgs = append(msgs, "one-way-request-read-by-server-not-executed")
+				}
+				if got[q.id] {
+					msgs = append(msgs, "one-way-request-answered")
+				}
+			} else if !got[q.id] {
 				kind := "queued-behind-worker-pool"
 				if c.pool == 0 {
 					kind = "no-pool"
@@ -324,35 +345,49 @@ func main() {
 	for _, pool := range []int32{0, 1, 2} {
 		if run.Thorough() {
 			// three deviations where the shutdown coincides with the connection set-up
-			add(conf{name: "one", pool: pool, queueCap: 8, clients: 1, shutdownMs: 0, ctxMs: 10000, reqs: []req{{0, 5, 0, 1}}}, 3, false)
-			add(conf{name: "one", pool: pool, queueCap: 8, clients: 1, shutdownMs: 5, ctxMs: 10000, reqs: []req{{0, 5, 300, 1}}}, 3, false)
-			add(conf{name: "two-pipelined", pool: pool, queueCap: 8, clients: 1, shutdownMs: 10, ctxMs: 10000, reqs: []req{{0, 5, 300, 1}, {0, 6, 300, 2}}}, 4, true)
+			add(conf{name: "one", pool: pool, queueCap: 8, clients: 1, shutdownMs: 0, ctxMs: 10000, reqs: []req{{0, 5, 0, 1, false}}}, 3, false)
+			add(conf{name: "one", pool: pool, queueCap: 8, clients: 1, shutdownMs: 5, ctxMs: 10000, reqs: []req{{0, 5, 300, 1, false}}}, 3, false)
+			add(conf{name: "two-pipelined", pool: pool, queueCap: 8, clients: 1, shutdownMs: 10, ctxMs: 10000, reqs: []req{{0, 5, 300, 1, false}, {0, 6, 300, 2, false}}}, 4, true)
 		}
 		for _, sd := range []int{0, 10, 100} {
 			for _, slow := range []int{0, 300, 700} {
 				// one client, one request in flight
 				add(conf{name: "one", pool: pool, queueCap: 8, clients: 1, shutdownMs: sd, ctxMs: 10000,
-					reqs: []req{{0, 5, slow, 1}}}, b, false)
+					reqs: []req{{0, 5, slow, 1, false}}}, b, false)
 			}
 			// two requests pipelined on one connection: one running, one queued when a pool of 1 is used
 			add(conf{name: "two-pipelined", pool: pool, queueCap: 8, clients: 1, shutdownMs: sd, ctxMs: 10000,
-				reqs: []req{{0, 5, 300, 1}, {0, 6, 300, 2}}}, b, false)
+				reqs: []req{{0, 5, 300, 1, false}, {0, 6, 300, 2, false}}}, b, false)
 			// two clients
 			add(conf{name: "two-clients", pool: pool, queueCap: 8, clients: 2, shutdownMs: sd, ctxMs: 10000,
-				reqs: []req{{0, 5, 700, 1}, {1, 5, 0, 2}}}, b, false)
+				reqs: []req{{0, 5, 700, 1, false}, {1, 5, 0, 2, false}}}, b, false)
 		}
 		// context shorter than the longest handler
 		add(conf{name: "short-ctx", pool: pool, queueCap: 8, clients: 1, shutdownMs: 100, ctxMs: 1000,
-			reqs: []req{{0, 5, 3000, 1}}}, b, false)
+			reqs: []req{{0, 5, 3000, 1, false}}}, b, false)
 		// three requests, the last arriving while shutdown is in progress
 		add(conf{name: "three", pool: pool, queueCap: 1, clients: 1, shutdownMs: 100, ctxMs: 10000,
-			reqs: []req{{0, 5, 300, 1}, {0, 6, 300, 2}, {0, 150, 0, 3}}}, b-1, false)
+			reqs: []req{{0, 5, 300, 1, false}, {0, 6, 300, 2, false}, {0, 150, 0, 3, false}}}, b-1, false)
 		// one client aborts its connection while its request is still running; the others must still be notified
 		add(conf{name: "aborting-client", pool: pool, queueCap: 8, clients: 3, shutdownMs: 100, ctxMs: 10000, abortMs: map[int]int{0: 50},
-			reqs: []req{{0, 5, 700, 1}, {2, 5, 0, 2}}}, 1, false)
+			reqs: []req{{0, 5, 700, 1, false}, {2, 5, 0, 2, false}}}, 1, false)
+		// a one-way request was served on the connection (alone, before, after a normal one)
+		for _, sd := range []int{100, 1000} {
+			add(conf{name: "one-way", pool: pool, queueCap: 8, clients: 1, shutdownMs: sd, ctxMs: 5000,
+				reqs: []req{{0, 5, 0, 1, true}}}, 1, false)
+			add(conf{name: "one-way-then-call", pool: pool, queueCap: 8, clients: 2, shutdownMs: sd, ctxMs: 5000,
+				reqs: []req{{0, 5, 300, 1, true}, {0, 6, 300, 2, false}, {1, 5, 0, 3, false}, {1, 6, 0, 4, true}}}, 1, false)
+		}
+		// clients that have been quiet for 2.5 / 3.5 s when Shutdown is called, server without a read timeout
+		for _, sd := range []int{2500, 3500} {
+			for _, nrt := range []bool{true, false} {
+				add(conf{name: fmt.Sprintf("long-idle-clients noReadTimeout=%v", nrt), pool: pool, queueCap: 8, clients: 2, shutdownMs: sd, ctxMs: 4000, noReadTO: nrt,
+					reqs: []req{{0, 5, 0, 1, false}}}, 1, false)
+			}
+		}
 		// idle connected client
 		add(conf{name: "idle-client", pool: pool, queueCap: 8, clients: 2, shutdownMs: 100, ctxMs: 10000,
-			reqs: []req{{0, 5, 0, 1}}}, b, false)
+			reqs: []req{{0, 5, 0, 1, false}}}, b, false)
 	}
 	e1.Main(run, cases, []string{
 		"'already read' is taken from the network log: the server's Read returned the last byte of the request frame",
